@@ -1,6 +1,6 @@
 #!/bin/bash
 # tools/seedrun.sh <patch.diff> <prop> [<prop>...] : apply a seeded change to /repo, run the given checks, undo it.
-PATCH=$1; shift
+PATCH=$(readlink -f "$1"); shift
 cd /repo && git status --short | grep -q . && { echo "/repo not clean"; exit 2; }
 git -C /repo apply "$PATCH" || { echo "patch does not apply"; exit 2; }
 cd /verif
